@@ -68,7 +68,12 @@ func (f *Formatter) formatConditionExpressionLines(expr ast.Expression) ([]strin
 			return lines, true, true
 		}
 		inner := f.formatExpression(t.Right).TrimmedString()
-		return []string{"(" + inner + ")"}, false, false
+		// with the comments of the group itself (in front of "(" and behind ")")
+		line := f.formatComment(t.Leading, " ", 0) + "(" + inner + ")"
+		if v := strings.TrimRight(f.formatComment(t.Trailing, " ", 0), " "); v != "" {
+			line += " " + v
+		}
+		return []string{line}, false, false
 	case *ast.PrefixExpression:
 		// Handle negation and other prefix operators containing compound conditions.
 		rightLines, rightMultiline, rightPreserve := f.formatConditionLines(t.Right)
